@@ -1,15 +1,18 @@
 #!/bin/bash
 # usage: selftest/with_patch.sh <patch.diff> <command...>
-# Applies the patch to /repo, runs the command, and always restores /repo afterwards.
+# Applies the patch to the repository under test, runs the command, and always restores the repository afterwards.
+# The repository is /repo unless SEEDED_REPO names another git checkout of it (then VERIF_REPO is exported for the command).
 set -u
 patch="$(readlink -f "$1")"; shift
-cd /repo || exit 3
-if [ -n "$(git status --porcelain --untracked-files=no)" ]; then echo "/repo not clean" >&2; exit 3; fi
+repo="${SEEDED_REPO:-/repo}"
+cd "$repo" || exit 3
+if [ -n "$(git status --porcelain --untracked-files=no)" ]; then echo "$repo not clean" >&2; exit 3; fi
 git apply "$patch" || { echo "patch does not apply" >&2; exit 3; }
-trap 'git -C /repo checkout -- . ' EXIT
-cd /verif
+trap 'git -C "$repo" checkout -- . ' EXIT
+cd "$(dirname "$0")/.."
 # evidence files describe the unchanged tree only: do not overwrite them from a run on a seeded change
 export VERIF_NO_EVIDENCE=1
+if [ "$repo" != "/repo" ]; then export VERIF_REPO="$repo"; fi
 "$@"
 rc=$?
 exit $rc
